@@ -1,17 +1,73 @@
 (* C14 — property theorems only (statements closed by [exact] of lemmas from Proofs*.v).
 
-   The full statement
-     C14_recover : forall ops, heights_pos ops ->
-       let '(d, m, s) := run ops in
-       reopen_obs d = Some (live (sdur s)) /\ (sdur s = sack s \/ sdur s = sack s ++ sinfl s)
-   (for every op sequence, crash points being ops) is NOT proved: the induction over [run] with the
-   memory part of the invariant (pending relation, index soundness, file numbering) is missing.
-   What is proved are the obligations of that induction, each for all disks / histories, and the
-   end-to-end statement is checked by the harness on every run with the same predicate [recover_ok]. *)
+   A crash is an operation of the history: [Flush (FCrash cp)] leaves the disk in the intermediate
+   state named by the crash point cp (new empty file / torn record / complete unacknowledged record /
+   watermark tmp written / renamed / rotation with torn or complete trailer / any subset of the
+   obsolete files gone), [Close true] tears the EOF trailer, [Reopen] of a store that was not closed
+   is a kill between two calls. "For every crash image of every history" is therefore
+   "for every op list"; C14_recover_crash_images spells the instance out. Heights are >= 1
+   (hypothesis heights_pos): height 0 is the registered finding height0-dropped, see
+   C14_recover_pos_needed. *)
 From Coq Require Import List NArith Bool.
-From V Require Import C14.Model C14.Proofs C14.Proofs_inv.
+From V Require Import C14.Model C14.Proofs C14.Proofs_inv C14.Proofs_run.
 Import ListNotations.
 Open Scope N_scope.
+
+(* The end-to-end statement. After ANY history (appends, prunes, successful / failed / crashing
+   flushes, closes, reopens, in any order and number) reopening the disk succeeds and returns exactly
+   the live entries of the durable history, which is the acknowledged history or the acknowledged
+   history followed by the complete in-flight batch; [recover_ok] is the predicate the harness
+   evaluates on the real store. *)
+Theorem C14_recover : forall ops, heights_pos ops ->
+  let '(d, m, s) := run ops in
+  reopen_obs d = Some (live (sdur s)) /\
+  (sdur s = sack s \/ sdur s = sack s ++ sinfl s) /\
+  recover_ok (sack s) (sinfl s) (reopen_obs d) = true.
+Proof. exact recover_main. Qed.
+Print Assumptions C14_recover.
+
+Theorem C14_recover_crash_images : forall ops o, heights_pos ops -> crash_op o ->
+  let s := snd (run ops) in
+  let '(d', m', s') := run (ops ++ [o]) in
+  exists l, reopen_obs d' = Some l /\
+    (l = live (sack s') \/ l = live (sack s' ++ sinfl s')) /\
+    (o <> Reopen -> sack s' = sack s).
+Proof. exact recover_crash_images. Qed.
+Print Assumptions C14_recover_crash_images.
+
+Theorem C14_no_partial_batch : forall ops, heights_pos ops ->
+  let '(d, m, s) := run ops in
+  exists l, reopen_obs d = Some l /\ (l = live (sack s) \/ l = live (sack s ++ sinfl s)).
+Proof. exact no_partial_batch. Qed.
+Print Assumptions C14_no_partial_batch.
+
+(* A flush that reports failure (and whose tail repair succeeded), after any history: nothing of the
+   batch is durable or acknowledged, a reopen returns what it returned before, and the next flush
+   succeeds and makes the whole pending batch durable. *)
+Theorem C14_flush_fail_clean : forall ops w, heights_pos ops ->
+  let st := run ops in
+  let '(st1, r1) := step st (Flush (FFail w true)) in
+  r1 = RFail false ->
+  sack (snd st1) = sack (snd st) /\ sdur (snd st1) = sdur (snd st) /\
+  reopen_obs (fst (fst st1)) = reopen_obs (fst (fst st)) /\
+  reopen_obs (fst (fst st)) = Some (live (sack (snd st))) /\
+  let '(st2, r2) := step st1 (Flush FOk) in
+  r2 = ROk /\ reopen_obs (fst (fst st2)) = Some (live (sack (snd st) ++ spend (snd st))).
+Proof. exact flush_fail_clean_run. Qed.
+Print Assumptions C14_flush_fail_clean.
+
+(* ... and when the repair fails as well (repairRequired): every later flush is refused and changes
+   nothing; by C14_recover the disk still reopens (to acked, or acked ++ the failed batch). *)
+Theorem C14_flush_fail_repair_failed : forall d m w d1 m1 l o,
+  mstep d m (Flush (FFail w false)) = (d1, m1, RFail l) ->
+  exists d2 m2, mstep d1 m1 (Flush o) = (d2, m2, RRefused) /\ d2 = d1 /\ m2 = m1.
+Proof. exact flush_fail_blocked. Qed.
+Print Assumptions C14_flush_fail_repair_failed.
+
+(* The invariant behind C14_recover holds after every history. *)
+Theorem C14_invariant : forall ops, InvS (run ops).
+Proof. exact run_inv. Qed.
+Print Assumptions C14_invariant.
 
 (* What a reopen returns is a function of the watermark and the complete records still on disk:
    the entries above max(watermark, every prune record on disk), by height then file order; it fails
@@ -30,15 +86,15 @@ Print Assumptions C14_reopen_error_iff_inner_torn.
 
 (* A disk satisfying the invariant for durable history [dur] reopens without error to exactly
    live dur - the first disjunct of recover_ok, whatever the in-flight batch was. *)
-Theorem C14_recover_partial : forall d dur infl,
+Theorem C14_invariant_recovers : forall d dur infl,
   DInv d dur -> (forall h id, In (REntry h id) dur -> 0 < h) ->
   reopen_obs d = Some (live dur) /\ recover_ok dur infl (reopen_obs d) = true.
 Proof. exact dinv_recover. Qed.
-Print Assumptions C14_recover_partial.
+Print Assumptions C14_invariant_recovers.
 
 (* A committed batch extends the invariant: whole batch or nothing (a torn tail leaves disk_recs
    unchanged), given the pending relation between the written batch and the accepted calls. *)
-Theorem C14_commit_keeps_invariant_partial : forall W R dur b sp,
+Theorem C14_commit_keeps_invariant : forall W R dur b sp,
   N.max W (maxprune R) = maxprune dur ->
   filter (above_f (maxprune dur)) (entries R) = filter (above_f (maxprune dur)) (entries dur) ->
   pend_rel (maxprune dur) b sp ->
@@ -46,7 +102,7 @@ Theorem C14_commit_keeps_invariant_partial : forall W R dur b sp,
   filter (above_f (maxprune (dur ++ sp))) (entries (R ++ b)) =
   filter (above_f (maxprune (dur ++ sp))) (entries (dur ++ sp)).
 Proof. exact commit_records. Qed.
-Print Assumptions C14_commit_keeps_invariant_partial.
+Print Assumptions C14_commit_keeps_invariant.
 
 (* Replay (and commit) make the per-height index name every file that holds an entry above the
    prune bound ... *)
@@ -90,7 +146,7 @@ Print Assumptions C14_order_by_height.
 
 (* A flush that fails and whose tail repair succeeds: reports failure, leaves the durable content and
    what a reopen returns unchanged, keeps the pending batch, and leaves the store usable. *)
-Theorem C14_flush_fail_clean : forall d m w,
+Theorem C14_flush_fail_clean_step : forall d m w,
   mclosed m = false -> mdead m = false -> mrepair m = false -> mpend m <> [] ->
   (forall f, In f (dfiles d) -> ftorn f = false) ->
   let '(d', m', r) := mstep d m (Flush (FFail w true)) in
@@ -99,7 +155,7 @@ Theorem C14_flush_fail_clean : forall d m w,
   mpend m' = mpend m /\ mclosed m' = false /\ mdead m' = false /\ mrepair m' = false /\
   (forall f, In f (dfiles d') -> ftorn f = false).
 Proof. exact flush_fail_clean. Qed.
-Print Assumptions C14_flush_fail_clean.
+Print Assumptions C14_flush_fail_clean_step.
 
 (* ---------- non-vacuity and witnesses (vm_compute) ---------- *)
 Fixpoint heights (n : nat) (h : N) : list op :=
@@ -124,12 +180,21 @@ Example run_with_cleanup_crash :
   obs_of (run (ops ++ [Reopen; Append 278 9; Flush (FCrash CPFull)])) = Some [(277, 7); (278, 9)].
 Proof. vm_compute. repeat split. Qed.
 
-(* the hypothesis "heights are positive" of C14_recover_partial is needed: on a fresh log
+(* the hypothesis heights_pos of C14_recover is needed: on a fresh log
    prunedUpToHeight = 0 makes SetWALEntry drop a height-0 entry although nothing was pruned *)
 Example C14_height0_refuted :
   let st := run [Reopen; Append 0 5; Append 1 6; Flush FOk; Close false] in
   sack (snd st) = [REntry 0 5; REntry 1 6] /\ obs_of st = Some [(1, 6)] /\ ok_of st = false.
 Proof. vm_compute. repeat split. Qed.
+
+Example C14_recover_pos_needed :
+  exists ops, let '(d, m, s) := run ops in
+    reopen_obs d <> Some (live (sdur s)) /\ recover_ok (sack s) (sinfl s) (reopen_obs d) = false.
+Proof. exists [Reopen; Append 0 5; Append 1 6; Flush FOk; Close false]. vm_compute. split; [discriminate|reflexivity]. Qed.
+
+Example heights_pos_nontrivial :
+  heights_pos (Reopen :: heights 3 1 ++ [Append 9 1; Flush (FCrash CPTorn); Reopen]).
+Proof. intros h id Hin. simpl in Hin. repeat (destruct Hin as [Hin|Hin]; [inversion Hin; subst; vm_compute; discriminate|]). destruct Hin. Qed.
 
 (* watermark-before-delete is needed: without the watermark, losing the file that holds the prune
    record while an older file survives (removals are not ordered by a directory sync) revives the
